@@ -243,6 +243,50 @@ def run(check, an: Analysis):
                 check.instance('P', 'Process.interrupt:only-alive', alive is True,
                                event.where, 'interrupts are queued only while the process '
                                'has not finished', path=rules.path_lines(path, index))
+    waiti = an.callee(PROCESS, '_wait_interruptible')
+    wparams = [a.arg for a in waiti.fn.node.args.args]
+    verdict, n, bad = True, 0, None
+    for path in an.paths(waiti):
+        if path.kind != 'return':
+            continue
+        native = any(e.kind == 'call' and isinstance(e.node, ast.Call) and
+                     ast.unparse(e.node.func) == 'AwaitableEvent' for e in path.events)
+        if native:
+            continue
+        n += 1
+        checked = any(e.kind == 'test' and e.get('key') == ('truth', wparams[2])
+                      for e in path.events)
+        if not checked:
+            verdict = False
+            bad = bad or path
+    check.instance('P', 'Process._wait_interruptible:interrupt-checked-on-every-path',
+                   verdict and n >= 3, where_fn(waiti.fn),
+                   'whether or not the yielded event had to be waited for, a pending '
+                   'interrupt replaces it (%d return paths)' % n,
+                   path=rules.path_lines(bad) if bad else None, analysed=n)
+    flat = an.callee(CONDITION, '_flatten_values')
+    verdict, n, bad = True, 0, None
+    for path in an.paths(flat):
+        seg_tests = []
+        for index, event in enumerate(path.events + [None]):
+            if event is None or event.kind in ('iter-next', 'iter-end'):
+                nested = [t for t in seg_tests if 'isinstance' in ast.unparse(t.node)]
+                if nested and nested[0]['value'] is True:
+                    n += 1
+                    before = seg_tests[:seg_tests.index(nested[0])]
+                    if any('.ok' in ast.unparse(t.node) for t in before):
+                        verdict = False
+                        bad = bad or path
+                seg_tests = []
+            elif event.kind == 'test' and event.depth == 0:
+                seg_tests.append(event)
+    recursion = [n_ for n_ in ast.walk(flat.fn.node) if isinstance(n_, ast.Call)
+                 and ast.unparse(n_.func).endswith('._flatten_values')]
+    check.instance('P', 'Condition._flatten_values:nested-regardless-of-ok',
+                   verdict and n > 0 and len(recursion) == 1, where_fn(flat.fn),
+                   'a nested condition is flattened whether or not it has fired itself; '
+                   'only plain members are filtered by `ok`',
+                   path=rules.path_lines(bad) if bad else None, analysed=n)
     for fn, node, kind, detail in rules.attribute_method_calls(an, '_causes', IQUEUE):
         if kind == 'call':
             if detail == 'pop':
